@@ -18,7 +18,8 @@ LEVEL_TEXT = ("For every DAG on p<=4 nodes, every requested count from 0 to one 
               "exactly when infeasible (any other exception is a violation), same seed => same result, input untouched.")
 LEVEL_NOTE = "Trusted: reference cycle detector. Larger graphs sampled."
 RULE = ("cases: (DAG, operation, count, seed).  distinct = distinct tuple; non-trivial = 0 < count (feasible or exactly one past "
-        "the maximum) on a graph with >= 1 edge or >= 3 nodes")
+        "the maximum) on a graph with >= 1 edge or >= 3 nodes"
+        ' Also: array presentations, minute weights, numpy signed / unsigned counts, relabelled chains p=5..16 x 12 seeds, near-complete DAGs on 35-40 nodes, repeat after the caller overwrote the result.')
 ASSUMPTIONS = ["results are judged on their non-zero pattern (both functions document returning a 0/1 graph)"]
 EXHAUSTIVE = {"quick": True, "thorough": True}
 SOFT_LIMIT = {"quick": 240, "thorough": 1500}
